@@ -12,3 +12,5 @@ import PvModel.Props.C02Decide
 #print axioms Pv.C02_normal_form
 #print axioms Pv.C02_satisfiable
 #print axioms Pv.C02_decides
+#print axioms Pv.C02_projection
+#print axioms Pv.C02_answer_instances
